@@ -136,12 +136,17 @@ def impl_read(C, Raw, Conn, segs, comp, secret, known_ids, n, eof=True, gaps=Fal
                 tries += 1
             if p is None:
                 return ('err', 'NotReady', out)
-            out.append((p.id, bytes(p.data) if hasattr(p, 'data') else None))
+            out.append(p)
     except sim.Spin:
-        return ('err', 'Spin', out)
+        return ('err', 'Spin', look(out))
     except Exception as e:
-        return ('err', exn_name(e), out)
-    return ('ok', out, raw.remaining())
+        return ('err', exn_name(e), look(out))
+    return ('ok', look(out), raw.remaining())
+
+
+def look(kept):
+    """the packets are looked at only after the last read (a consumer that keeps what it was given, e.g. hands it to a queue)"""
+    return [(p.id, bytes(p.data) if hasattr(p, 'data') else None) for p in kept]
 
 
 def impl_write(Raw, packets, thr, secret):
